@@ -266,6 +266,9 @@ class MotionCommander:
         distance = math.sqrt(distance_x_m * distance_x_m +
                              distance_y_m * distance_y_m +
                              distance_z_m * distance_z_m)
+        if distance == 0.0:
+            # Nothing to do (e.g. landing from height 0); avoids dividing by zero below
+            return
         flight_time = distance / velocity
 
         velocity_x = velocity * distance_x_m / distance
